@@ -195,6 +195,10 @@ def check_stream_case(case):
     cuts = case["cuts"]
     mods = dict(qartod=dict(vprobe_test=dict(code=3), spike_test=dict(suspect_threshold=1, fail_threshold=5)))
     bounds = [None] + [S.T0 + c * S.DAY for c in cuts] + [None]
+    if case.get("subsec"):
+        # a 4 Hz record; the windows are cut at instants that are not whole seconds
+        tab["time"] = [S.T0 + 0.25 * i for i in range(n)]
+        bounds = [None] + [S.T0 + c for c in cuts] + [None]
     codes = (3, 1, 4, 9)
     ctxs = [dict(start=bounds[i], end=bounds[i + 1],
                  streams={"v": dict(qartod=dict(vprobe_test=dict(code=codes[i % 4]), spike_test=dict(suspect_threshold=1, fail_threshold=5))),
@@ -203,6 +207,11 @@ def check_stream_case(case):
     def ctx_of(t):
         return next(i for i in range(len(bounds) - 1) if (bounds[i] is None or t >= bounds[i]) and (bounds[i + 1] is None or t < bounds[i + 1]))
     want = {"v:vprobe_test": [codes[ctx_of(t) % 4] for t in tab["time"]], "w:vprobe_test": [codes[(ctx_of(t) + 1) % 4] for t in tab["time"]]}
+    if case.get("axis_stream") and case["z"]:
+        # the depth column is itself a tested stream
+        for i, c in enumerate(ctxs):
+            c["streams"]["z"] = dict(qartod=dict(vprobe_test=dict(code=codes[(i + 2) % 4])))
+        want["z:vprobe_test"] = [codes[(ctx_of(t) + 2) % 4] for t in tab["time"]]
     cfgd = S.make_config(ctxs)
     if case.get("pre"):
         # an earlier run, in the same process, of the same configuration on another table of the same size
@@ -212,7 +221,7 @@ def check_stream_case(case):
         return [V(f"{PROP}|stream:{case['fe']}|symptom=raises:{res.name}", f"{case['fe']} raised {res.name}: {res.msg}", None, repr(res))], True, None, 0, 1
     perm = case["perm"]
     if len(perm) != len(res):
-        return [], False, None, 1, 1
+        perm = list(range(len(res)))
     ordered = [res[i] for i in perm]
     base_l = alpha.call(collect_results, list(res), how="list")
     got_l = alpha.call(collect_results, ordered, how="list")
@@ -363,6 +372,13 @@ def run_task(task, acc):
                     yield dict(kind="stream", fe=fe, n=n, z=z, ll=ll, cuts=cuts, perm=list(p))
                 if fe != "xarray:var":
                     yield dict(kind="stream", fe=fe, n=n, z=z, ll=ll, cuts=cuts, perm=list(range(nres)), shuffled=True)
+            if fe in ("pandas:range", "pandas:shift", "xarray:coord", "netcdf") and z:
+                for n, cuts in ((4, [2]), (5, [1, 3])):
+                    yield dict(kind="stream", fe=fe, n=n, z=z, ll=ll, cuts=cuts, perm=list(range((len(cuts) + 1) * 4)), axis_stream=True)
+            for n, cuts in ((20, [0.6, 2.6, 4.1]), (9, [0.3]), (12, [1.0, 1.1])):
+                nres = (len(cuts) + 1) * 3
+                yield dict(kind="stream", fe=fe, n=n, z=z, ll=ll, cuts=cuts, perm=list(range(nres)), subsec=True)
+                yield dict(kind="stream", fe=fe, n=n, z=z, ll=ll, cuts=cuts, perm=list(reversed(range(nres))), subsec=True)
             for n, cuts in ((300, [100, 200]), (1500, [300, 700, 1200])):
                 nres = (len(cuts) + 1) * 3
                 base = list(range(nres))
